@@ -62,6 +62,10 @@ type World struct {
 	fwdMemo         map[*ssa.Function][]*ssa.Call
 	apFlowMemo      *applyFlowVerdict
 	p6Scope         map[*ssa.Function]bool
+	endBlockMemo    map[string]int
+	expandPanics    bool // the next enumPaths also expands callees that contain a panic
+	expandAll       bool // the next enumPaths expands every module callee outside the ledger package
+	enumDepth       int  // the next enumPaths expands callees to this depth (0 = default)
 	psEvents        bool // the next enumPaths labels events per path (labels use CalleeOnPath / ResolveOnPath)
 	pureMemo        map[*ssa.Function]bool
 	inlineEnv       []map[*ssa.Parameter]string
